@@ -158,10 +158,15 @@ def oracle_source(case, name: typing.Optional[str]) -> typing.Optional[str]:
     return None
 
 
+TOP_LEVEL_ONLY = False   # set from the translator's regenerated fact: type_to_template indexes only templates without a directory part
+
+
 def code_index(names) -> dict:
     """the index type_to_template builds (pathlib suffix/stem on the basename, sorted listing, later wins) -- trigger predicates only"""
     idx = {}
     for n in sorted(set(names)):
+        if TOP_LEVEL_ONLY and '/' in n:
+            continue
         b = n.rsplit('/', 1)[-1]
         i = b.rfind('.')
         if 0 < i < len(b) - 1 and b[i:] == '.j2':
@@ -430,6 +435,8 @@ def main(chk: core.Check, replay: typing.Optional[str] = None) -> int:
         from tools.translators import gen_c16
         d = gen_c16.data()
         ids = gen_c16.class_ids(d)
+        global TOP_LEVEL_ONLY
+        TOP_LEVEL_ONLY = bool(d.get('index_top_level_only'))
     except Exception as ex:  # translator failed closed: keep going with the oracle only
         broken.append('translator data unavailable: %s' % ex)
         ids = {}
